@@ -349,6 +349,7 @@ func (e *Engine) addPEGFlagObligations(pa *pegAnalysis) {
 	}
 	e.addDigitFreeObligations(pa)
 	e.addAltOrderObligations(pa)
+	e.addLetterFreeObligations(pa)
 	e.addClassExcludesObligations(pa)
 	// C18: st.* instructions are emitted only by rules that are reachable solely through the "^st" alternative
 	e.addStConfinement(pa, uniq(stSites))
@@ -772,4 +773,83 @@ func (e *Engine) addClassExcludesObligations(pa *pegAnalysis) {
 		}
 		e.frameObl(name, []string{"C13"}, detail == "", "", "the text class of "+rule+" excludes exactly "+strconv.Quote(string(want)), detail)
 	}
+}
+
+// addLetterFreeObligations (C18): `var pegLetterFree = []string{"<rule>"}` — number literals cannot consume an ASCII
+// letter: in an st list a value abuts the next attribute name (`力量1.5e2` is 力量=1.5 followed by e=2), so a literal
+// that admits a letter (an exponent suffix, a hex digit, a unit) swallows the beginning of the next edit.
+func (e *Engine) addLetterFreeObligations(pa *pegAnalysis) {
+	var rules []string
+	for v, lit := range e.globalsInit {
+		if v.Name() != "pegLetterFree" {
+			continue
+		}
+		for _, el := range lit.Elts {
+			if bl, ok := el.(*ast.BasicLit); ok {
+				if s, err := strconv.Unquote(bl.Value); err == nil {
+					rules = append(rules, s)
+				}
+			}
+		}
+	}
+	sort.Strings(rules)
+	for _, name := range rules {
+		r := pa.g.ByName[name]
+		obl := "peg:" + name + "/letter-free"
+		if r == nil {
+			e.frameObl(obl, []string{"C18"}, false, "", "rule "+name+" exists", "no such rule")
+			continue
+		}
+		why := pa.mayConsumeLetter(r.Expr, map[*pegRule]bool{})
+		e.frameObl(obl, []string{"C18"}, why == "", "", "the literal rule "+name+" cannot consume an ASCII letter (a value ends where the next name begins)", why)
+	}
+}
+
+func (pa *pegAnalysis) mayConsumeLetter(n *pegNode, seen map[*pegRule]bool) string {
+	isLetter := func(r rune) bool { return (r >= 'a' && r <= 'z') || (r >= 'A' && r <= 'Z') }
+	switch n.Kind {
+	case pkAnd, pkNot, pkAndCode, pkNotCode, pkCode:
+		return ""
+	case pkAny:
+		return "`.` matches any character"
+	case pkLit:
+		for _, c := range n.Text {
+			if isLetter(c) {
+				return "literal " + strconv.Quote(n.Text) + " contains a letter"
+			}
+		}
+		return ""
+	case pkClass:
+		if n.Inverted {
+			return "inverted character class " + n.Text
+		}
+		for _, c := range n.Chars {
+			if isLetter(c) {
+				return "character class " + n.Text + " admits the letter " + strconv.QuoteRune(c)
+			}
+		}
+		for i := 0; i+1 < len(n.Ranges); i += 2 {
+			lo, hi := n.Ranges[i], n.Ranges[i+1]
+			if (lo <= 'z' && hi >= 'a') || (lo <= 'Z' && hi >= 'A') {
+				return "character class " + n.Text + " admits letters"
+			}
+		}
+		if strings.Contains(n.Text, "\\p") || strings.Contains(n.Text, "\\P") {
+			return "character class " + n.Text + " uses a Unicode class"
+		}
+		return ""
+	case pkRef:
+		r := pa.g.Rules[n.Ref]
+		if seen[r] {
+			return ""
+		}
+		seen[r] = true
+		return pa.mayConsumeLetter(r.Expr, seen)
+	}
+	for _, k := range n.Kids {
+		if w := pa.mayConsumeLetter(k, seen); w != "" {
+			return w
+		}
+	}
+	return ""
 }
